@@ -72,6 +72,10 @@ def judge(rec, mrole, t, cfg, src=None):
         # the reference model itself misbehaves on this shape (see findings.py); not decided
         rec.inconc("reference-model-defect:cpython>=3.12 inlined-comprehension cell leak")
         return
+    why = observe.interpreter_defect_312(o, src, observe.SCOPES_LOG_PRELUDE)
+    if why:
+        rec.inconc(why)
+        return
     rec.violation(o.status, case, o.detail)
 
 
